@@ -590,27 +590,11 @@ XML_SAFE_SEPS = ["\x85", "\u2028", "\u2029"]      # XML 1.0 cannot carry the C0 
 # codecs whose STRING readers (loads/decode) cut the text with str.splitlines() (penman: inside the library), while
 # their FILE readers (load) iterate the lines of the file
 SPLIT_READERS = {"simplemrs", "simpledmrs", "eds", "indexedmrs", "ace", "dmrspenman", "edspenman"}
-FINDING_TAG = "string-reader-splitlines"
-
-
-def finding_id(tag):
-    """id under which the coordinator listed the C20 finding with this tag in known_findings.json (None: not listed)"""
-    try:
-        with open(os.path.join(paths.VERIF, "known_findings.json"), encoding="utf-8") as f:
-            fs = json.load(f).get("findings", [])
-    except Exception:
-        return None
-    for f in fs:
-        if f.get("property") == "C20" and f.get("status") == "known" and \
-                (f.get("tag") == tag or "splitlines" in f.get("what", "")):
-            return f.get("id")
-    return None
-
-
 def sep_affected(case):
-    """is the case in the input class of the finding: strings with one of SEP_CHARS and a conversion that reads a
-    splitlines-codec through its STRING reader (profile field, '-lines' line, ACE's inner SimpleMRS) or writes a
-    target whose loads()/decode() is such a reader"""
+    """strings with one of SEP_CHARS and a conversion that reads a splitlines-codec through its STRING reader (profile
+    field, '-lines' line, ACE's inner SimpleMRS) or writes a target whose loads()/decode() is such a reader: there the
+    unchanged code already fails (string readers use str.splitlines(), file readers do not) -- outside the
+    property's item space (C01-C03 exclude control and line-separator characters); never generated"""
     if case.get("kind") != "convert" or not case.get("sep"):
         return False
     s, sl = norm_name(case["src"])
@@ -738,7 +722,14 @@ class C20(Check):
         "the direct oracle applies the real codecs to every item",
         "generators keep out inputs of known codec/converter defects so that only assembly/glue is judged: no DMRS node "
         "of type 'u' (F11), no MRS with mutual non-scopal arguments in one scope (F08), no empty property values, no "
-        "newline inside a string, no predicate containing brackets or quotes",
+        "control or line-separator character inside a string (the item spaces of C01-C03 exclude them), no predicate "
+        "containing brackets or quotes",
+        "OUT-OF-SPACE stream (run and compared; a difference is counted in the evidence, never a violation; no model "
+        "comparison): strings holding U+0085/U+2028/U+2029/VT/FF/FS/GS/RS, restricted to what passes on the unchanged "
+        "code -- JSON codecs on every path, MRX/DMRX with U+0085/U+2028/U+2029, lexer/PENMAN codecs only as file/stream "
+        "non-'-lines' sources; never a conversion through a string reader of simplemrs/simpledmrs/eds/indexedmrs/ace/"
+        "*penman (their loads()/decode() cut the text with str.splitlines() while load() iterates file lines: recorded "
+        "as an observation in DESIGN.md, outside C20)",
         "indexedmrs is exercised with a harness-made SEM-I and the items it licenses (chains of 1-8 predications without "
         "variable properties), as long source, small source and target; it is not part of the random pair matrix and "
         "of the transcoding clause",
@@ -932,15 +923,15 @@ class C20(Check):
                     for ep in eps[:1] + [e for e in eps[1:] if e["carg"] is not None]:
                         ep["carg"] = rng.choice(ACE_CARGS)
         case.update(over)
-        if sep is None:
-            sep = rng.random() < 0.12
         self.apply_sep(rng, case, sep)
         return case
 
     def apply_sep(self, rng, case, sep):
-        """items whose quoted strings hold characters at which str.splitlines() breaks (U+0085, U+2028, U+2029, VT, FF,
-        FS, GS, RS); XML formats only get the three that XML 1.0 can carry; the input class of the C20 finding is only
-        generated when the finding is listed (it is then classified), otherwise left out"""
+        """OUT-OF-SPACE stream (only on request): items whose quoted strings hold characters at which str.splitlines()
+        breaks (U+0085, U+2028, U+2029, VT, FF, FS, GS, RS -- control / line-separator characters, which the item
+        spaces of C01-C03 exclude).  Only the part that passes on the unchanged code is generated: never a conversion
+        through a string reader of a splitlines-codec (sep_affected), XML only with the three characters XML 1.0 can
+        carry.  Such cases are run and compared, but a difference is counted, not reported as a violation."""
         case["sep"] = False
         s_, _ = norm_name(case["src"])
         t_, _ = norm_name(case["tgt"])
@@ -952,9 +943,10 @@ class C20(Check):
         if not chars:
             return
         case["sep"] = True
-        if sep_affected(case) and finding_id(FINDING_TAG) is None:
+        if sep_affected(case):
             case["sep"] = False
             return
+        case["out_of_space"] = True
         add_sepchars(rng, case["rep"], case["items"], chars)
 
     def sep_cases(self, rng):
@@ -1399,8 +1391,8 @@ class C20(Check):
             if norm_name(case["src"]) == ("indexedmrs", False):
                 return None
             return {"op": "plan", "src": cps(case["src"]), "tgt": cps(case["tgt"]), "nproj": case["nproj"]}
-        if sep_affected(case):
-            return None          # the code raises in / writes text for a reader of the finding's class
+        if case.get("out_of_space") or sep_affected(case):
+            return None          # out-of-space cases are not part of the model/implementation correspondence
         try:
             per = self.per_item(case)
         except Exception:
@@ -1424,6 +1416,17 @@ class C20(Check):
 
     # ---- direct oracle
     def oracle(self, case, res):
+        if case.get("kind") == "convert" and case.get("out_of_space"):
+            # compared, but a difference outside the property's item space is not a violation by itself
+            diffs = self.oracle_in_space(case, res)
+            self._oos = getattr(self, "_oos", {"cases": 0, "differences": 0})
+            self._oos["cases"] += 1
+            self._oos["differences"] += 1 if diffs else 0
+            self._oos_last = bool(diffs)
+            return []
+        return self.oracle_in_space(case, res)
+
+    def oracle_in_space(self, case, res):
         if case["kind"] == "integration":
             return integration.block_oracle(res)
         fails = []
@@ -1607,15 +1610,7 @@ class C20(Check):
             fail("'-lines' output for zero items is not empty", repr(out))
 
     def classify(self, case, failure):
-        """the one C20 finding: strings holding U+0085/U+2028/U+2029/VT/FF/FS/GS/RS and a conversion that goes through
-        the STRING reader of a splitlines-codec (profile field, '-lines' source line, ACE's inner SimpleMRS) or writes
-        such a codec as target (whose loads()/decode() then cannot read the text that its load() can)"""
-        if not sep_affected(case):
-            return None
-        clause = str(failure.get("clause", ""))
-        if clause.startswith("harness:"):
-            return None
-        return finding_id(FINDING_TAG)
+        return None
 
     def nontrivial_key(self, case, res):
         if case["kind"] == "convert" and not case["items"]:
@@ -1639,11 +1634,11 @@ class C20(Check):
         inc("input:" + case["input"])
         inc("indent:" + str(case["indent"]))
         inc("dup:" + case.get("dup", "none"))
-        if case.get("sep"):
-            inc("sepchars")
-            inc("sepchars:" + ("src-lines" if sl else case["input"]) + (":tgt-lines" if tl else ""))
-            if sep_affected(case):
-                inc("sepchars:in the finding's class")
+        if case.get("out_of_space"):
+            inc("out-of-space (separator characters in strings)")
+            inc("out-of-space:" + ("src-lines" if sl else case["input"]) + (":tgt-lines" if tl else ""))
+            if getattr(self, "_oos_last", False):
+                inc("out-of-space:differs (not a violation)")
         if s == "ace":
             for b in (case.get("ace_layout") or []):
                 inc("ace:sentence with %s" % ("SKIP" if b == "skip" else "%s readings" % (b if b < 3 else "3+")))
